@@ -134,6 +134,7 @@ class Sched(object):
                 return
             if not self.overrun:
                 self.deadlock = True
+            self.stuck = [n for n, x in self.threads.items() if not x["done"]]
             self._abort_all(st)
             return
         if nxt == st["name"] and not finished:
